@@ -57,7 +57,7 @@ def run(prog, chk):
     fc = Flow(prog, cl, implicit=False)
     fl_calls = [n for (n, c) in fc.nodes_with_call(name="self.flush")]
     closed = fc.nodes(lambda n: n.kind == "stmt" and isinstance(n.ast, ast.Assign) and unparse(n.ast.targets[0]) == "self._closed")
-    ok = len(fl_calls) >= 1 and len(closed) == 1 and fc.dominated(closed, guard_nodes=fl_calls) and fc.exit_dominated(guard_nodes=fl_calls)
+    ok = len(fl_calls) >= 1 and len(closed) == 1 and fc.dominated(closed, guard_nodes=fl_calls, complete=True) and fc.exit_dominated(guard_nodes=fl_calls)
     chk.ob("R1.close-flushes-first", "BufferedFile.close", ok, cl.loc, "flush() dominates `self._closed = True` and every normal exit")
     fs = prog.method("BufferedFile", "flush")
     ff = Flow(prog, fs, implicit=False)
